@@ -384,11 +384,34 @@ class _Wrap:
         return r
 
 
+def nf_valid(p, depth=0):
+    """sound syntactic proof attempt: the formula is valid if every arithmetic equality in positive position reduces to
+    0 == 0 in z3's sum-of-monomials normal form (uninterpreted applications are atoms)"""
+    if not is_sym(p):
+        return bool(p)
+    if z3.is_true(p):
+        return True
+    if z3.is_and(p):
+        return all(nf_valid(c, depth + 1) for c in p.children())
+    if z3.is_implies(p):
+        return nf_valid(p.arg(1), depth + 1)
+    if z3.is_app(p) and p.decl().kind() == z3.Z3_OP_ITE and z3.is_bool(p):
+        return nf_valid(p.arg(1), depth + 1) and nf_valid(p.arg(2), depth + 1)
+    if z3.is_eq(p) and z3.is_arith(p.arg(0)):
+        try:
+            r = z3.simplify(p.arg(0) - p.arg(1), som=True, flat=True, sort_sums=True)
+        except z3.Z3Exception:
+            return False
+        return z3.is_rational_value(r) and r.numerator_as_long() == 0
+    return False
+
+
 class Check:
     """collects checks on one path: each check = (description, z3 property, replay closure)"""
     def __init__(self, m):
         self.m = m
         self.items = []
+        self.nice = []        # optional extra constraints describing a well-conditioned counterexample (tried first for the replay)
 
     def add(self, desc, prop, on_fail=None):
         self.items.append((desc, prop, on_fail))
@@ -402,12 +425,27 @@ class Check:
             r, model = self.m.check(prop, timeout_ms)
             out["solver_s"] += time.time() - t0
             out["checks"] += 1
+            if r == "unknown" and is_sym(prop) and z3.is_and(prop) and prop.num_args() > 1:
+                # the conjunction was too much at once: decide the clauses one by one (normal-form proof first)
+                sub = [("holds", None) if nf_valid(ch) else self.m.check(ch, timeout_ms * 3) for ch in prop.children()]
+                if all(x[0] == "holds" for x in sub):
+                    r = "holds"
+                elif any(x[0] == "fails" for x in sub):
+                    r, model = "fails", next(x[1] for x in sub if x[0] == "fails")
             if r == "holds":
                 out["holds"] += 1
             elif r == "unknown":
                 out["unknown"].append(desc)
             else:
                 rec = {"desc": desc}
+                if self.nice and on_fail is not None and is_sym(prop):
+                    self.m.solver.push()
+                    for c_ in self.nice:
+                        self.m.solver.add(c_)
+                    r2, model2 = self.m.check(prop, timeout_ms)
+                    self.m.solver.pop()
+                    if r2 == "fails":
+                        model = model2
                 if on_fail is not None:
                     try:
                         rec.update(on_fail(model))
